@@ -52,3 +52,7 @@ package base
 //@   ensures[iff] err == nil <==> tiles(sampleCount, intervalInMs, parentSampleCount, parentIntervalInMs)
 //@   ensures[non-reusable] err == GlobalStatisticNonReusableError ==> wellFormed(sampleCount, intervalInMs) && wellFormed(parentSampleCount, parentIntervalInMs)
 //@   modifies nothing
+
+// A time predicate is a function of the timestamp only (closures over values that are not modified afterwards).
+//@ callback TimePredicate(t) r
+//@   stable
